@@ -826,7 +826,8 @@ def impl_ren(case, viol):
         listed = case["listed"]
         if len(set(listed)) == len(listed):
             want = ["/ppt/slides/slide%d.xml" % (k + 1) for k in range(len(listed))]
-            got = [after[i] for i in listed]
+            # a p:sldId whose relationship does not exist names no part: shown as such (the unchanged code raises there)
+            got = [after[i] if 0 <= i < len(after) else "<no part: dangling r:id>" for i in listed]
             if got != want:
                 viol.append(("rename-order", "after prs.slides the listed slide parts are named %r, expected %r" % (got, want), case))
             if len(set(case["names"])) == len(case["names"]):
